@@ -2,6 +2,7 @@ SPECIFICATION Spec
 CONSTANTS
   Recorded = FALSE
   Fault = "edrv_no_regen_clip"
+  Lims <- LimOn
   Policies <- Both
   Ratings <- R123
   ConvStarts <- CS2
